@@ -121,6 +121,8 @@ def run(ctx):
             ctx.sample({"input": inp[:500], "first_config": tracelib.cfg_json(cfg_from_bits(confs[0], users, 1))})
         if ctx.violations:
             break
+    if not ctx.violations:
+        evals += inverse_pairs(ctx, exe, hist)
     ctx.cov["evaluations"] = evals
     ctx.cov["distinct_nontrivial"] = len(distinct)
     ctx.cov["traces_validated_against_impl"] = evals
@@ -134,6 +136,67 @@ def run(ctx):
     if not ok and not ctx.violations:
         ctx.violation("proof obligation of C09 no longer checks and no failing input was found",
                       {"broken": ctx.proof_broken}, found_input=False)
+
+
+def sel_rows(views, n=1):
+    """numeric rows of the selected-output string of user number n (the value table does not receive inverse-model rows)"""
+    txt = tracelib.unhx(views["selstr"][n][0]) if n in views.get("selstr", {}) else b""
+    txt = txt.decode("utf-8", "replace") if isinstance(txt, bytes) else txt
+    lines = [l for l in txt.splitlines() if l.strip()]
+    if not lines:
+        return [], []
+    head = lines[0].split()
+    rows = []
+    for l in lines[1:]:
+        try:
+            rows.append([float(x) for x in l.split()])
+        except ValueError:
+            rows.append(l.split())
+    return head, rows
+
+
+def inverse_pairs(ctx, exe, hist):
+    """INVERSE_MODELING punches through its own routine: compare the punched numbers with the output sink off and on"""
+    from gens import threads as gth
+    n = ctx.n(3, 40)
+    hist["inverse_pairs"] = 0
+    import vlib
+    ex16 = vlib.REPO / "phreeqc3-examples" / "ex16"
+    for k in range(n):
+        inp = gth.inverse(ctx.rng)[1]
+        if k == 0 and ex16.exists():
+            # shipped example 16 (adjustments are non-zero, so Sum_Delta/U and MaxFracErr are non-trivial)
+            t = ex16.read_text()
+            if "INVERSE_MODELING" in t:
+                inp = t.replace("INVERSE_MODELING", "SELECTED_OUTPUT 1\n -reset false\n -inverse_modeling true\nINVERSE_MODELING", 1)
+        views = []
+        for out_on in (False, True):
+            bits = (out_on, False, False, False, True, False, False, False, True, False)
+            cfg = cfg_from_bits(bits, [1], 1)
+            res = tracelib.run_calls(ctx, exe, [(cfg, inp)])[0]
+            if "crash" in res:
+                ctx.violation("harness run crashed / gave no result", {"input": inp, "result": res})
+                return hist["inverse_pairs"]
+            views.append(res["views"])
+        hist["inverse_pairs"] += 1
+        (h0, r0), (h1, r1) = sel_rows(views[0]), sel_rows(views[1])
+        if h0 != h1 or len(r0) != len(r1):
+            ctx.violation("inverse-model selected output has a different shape with the output sink on and off",
+                          {"input": inp, "shape_off": [h0, len(r0)], "shape_on": [h1, len(r1)]})
+            return hist["inverse_pairs"]
+        cols = set()
+        for a, b in zip(r0, r1):
+            for j, (x, y) in enumerate(zip(a, b)):
+                same = (x == y) or (isinstance(x, float) and isinstance(y, float) and abs(x - y) <= 1e-6 * max(abs(x), abs(y)))
+                if not same:
+                    cols.add(h0[j] if j < len(h0) else str(j))
+        rep = {"input": inp, "columns": sorted(cols), "switch": "output string off vs on, selected-output string on"}
+        if cols and cols <= {"Sum_Delta/U", "MaxFracErr"}:
+            ctx.finding("inverse-punch-depends-on-output", "columns %s change with the output switch" % sorted(cols), rep)
+        elif cols:
+            ctx.violation("selected-output values of inverse models differ between output switch off and on: %s" % sorted(cols), rep)
+            return hist["inverse_pairs"]
+    return 2 * hist["inverse_pairs"]
 
 
 def replay(ctx, data):
